@@ -629,9 +629,9 @@ def formatnum_fn(
         return arg0
 
     if arg1 == "NOSEP":
-        sep = ""
-    else:
-        sep = ctx.LOCALIZATION_DATA["grouping_separator"]
+        # No separators: the plain number comes back as it is
+        return arg0
+    sep = ctx.LOCALIZATION_DATA["grouping_separator"]
 
     if sep and sep != "." and sep in arg0:
         # separator only allowed when R)eversing ("." in the raw input is
